@@ -5,7 +5,11 @@ cd "$(dirname "$0")"
 mkdir -p bin ocaml/gen evidence/replay coq/Gen
 /venv/bin/python tools/py2coq.py
 cd coq
-{ echo "-Q . PV"; find Lib Model Spec Gen Refine Proofs Props Extract -name '*.v' | sort; } > _CoqProject
+/venv/bin/python - <<'PY'
+import glob, os
+want = '-Q . PV\n' + ''.join(sorted(p + '\n' for d in ('Lib', 'Model', 'Spec', 'Gen', 'Refine', 'Proofs', 'Props', 'Extract') for p in glob.glob(os.path.join(d, '*.v'))))
+open('_CoqProject', 'w').write(want)
+PY
 coq_makefile -f _CoqProject -o Makefile
 timeout 3000 make -k -j16 || echo "setup: some Coq targets failed (reported per property by ./check)"
 cd ..
